@@ -115,3 +115,23 @@ def relevant(pid, i):
     if pid == "C02":
         return i["elem"] in ("TR", "NTR")
     return True
+
+
+def fault_matrix(q):
+    fb = ["--fault", "1" if q else "2", "--few-ranges", "--seqlen", "2"]
+    m = [
+        inst("flatset", "NTR", "less", "amcvector", alloc="ledgerstd", opts=fb),
+        inst("flatset", "TR", "coarse", "smallvector2", alloc="ledgerstd", opts=fb),
+        inst("smallset", "NTR", "less", back="stdset", N=2, alloc="ledgerstd", opts=fb),
+        inst("smallset", "TR", "less", back="flatset", N=2, alloc="ledgerstd", opts=fb),
+    ]
+    if not q:
+        m += [
+            inst("flatset", "NTR", "stateful", "amcvector", alloc="ledgerstd", keys=5, opts=fb),
+            inst("flatset", "TR", "greater", "fixed8", keys=4, opts=fb),
+            inst("flatset", "TC4", "less", "stdvector", alloc="ledgerstd", opts=fb),
+            inst("smallset", "NTR", "coarse", back="stdset", N=3, alloc="ledgerstd", keys=5, opts=fb),
+            inst("smallset", "TR", "stateful", back="flatset", N=3, alloc="ledgerstd", keys=5, opts=fb),
+            inst("smallset", "NTR", "less", back="stdset", N=1, alloc="ledgerstd", opts=fb),
+        ]
+    return m
